@@ -173,7 +173,10 @@ def generate(rng, index, tier):
             if focus and focus[-1].get('k') == 'sys' and not focus[-1].get('noend') and rng.chance(0.3):
                 # another operation of the same family overlaps the focus without nesting: it starts before and ends inside
                 fam_ = worlds.catalog()['fam'].get(name)
-                cands = [n_ for n_ in cat['names'] if worlds.catalog()['fam'].get(n_) == fam_ and n_ not in worlds.SPECIAL and n_ != name]
+                # (not the kinds that other decoders collect from their windows: those are decoded from whichever of their records
+                #  comes first, so an END record of such a kind would have to carry in-range words of its own - it is not a call)
+                cands = [n_ for n_ in cat['names'] if worlds.catalog()['fam'].get(n_) == fam_ and n_ not in worlds.SPECIAL and n_ != name
+                         and not n_.startswith(('RealFaultAddress', 'DYLD_uuid', 'PERF_STK', 'PERF_THD'))]
                 if cands:
                     # (the overlapping operation cycles through the family with the visits of this focus: no pair depends on luck)
                     xn = sorted(cands)[(index // len(names)) % len(cands)] if rng.chance(0.7) else rng.pick(cands)
